@@ -45,6 +45,8 @@ var c09Msgs = []c09Msg{
 	// the relay application id with the largest 24-bit command code: as an answer this index is the
 	// closest neighbour of the catch-all's internal key {0xffffffff, 0xffffffff, false}
 	{Priv: true, App: 0xffffffff, Code: 16777215, Short: "XE", OtherApp: 0, OtherCode: 999, OtherName: "XP"},
+	// a private command whose short name is not all upper case
+	{Priv: true, App: 0, Code: 998, Short: "Hm", OtherApp: 7, OtherCode: 999, OtherName: "XP"},
 	// commands that exist only in an application the AVP parent table leads to
 	{Undefined: true, App: 16777251, Code: 272, Short: "CC", OtherApp: 4, OtherCode: 316, OtherName: "UL"},
 	{Undefined: true, App: 16777238, Code: 265, Short: "AA", OtherApp: 1, OtherCode: 272, OtherName: "CC"},
@@ -62,6 +64,7 @@ func c09Dict(m c09Msg) *dict.Parser {
 		x := `<?xml version="1.0"?><diameter><application id="0" name="Priv">
 <command code="999" short="XP" name="X-Private"><request><rule avp="P-Note" required="false"/></request><answer><rule avp="P-Note" required="false"/></answer></command>
 <command code="16777215" short="XE" name="X-Experimental"><request><rule avp="P-Note" required="false"/></request><answer><rule avp="P-Note" required="false"/></answer></command>
+<command code="998" short="Hm" name="Home-Made"><request><rule avp="P-Note" required="false"/></request><answer><rule avp="P-Note" required="false"/></answer></command>
 <command code="280" short="WD" name="Watch-Dog"><request><rule avp="P-Note" required="false"/></request><answer><rule avp="P-Note" required="false"/></answer></command>
 <avp name="P-Note" code="9901" must="M"><data type="UTF8String"/></avp></application></diameter>`
 		if err := p.Load(strings.NewReader(x)); err != nil {
@@ -81,6 +84,23 @@ type C09Case struct {
 	Subset int // bit i set = key i registered
 	Rereg  int // -1 none; otherwise key index registered a second time
 	Extra  uint8 // further command flag bits set besides R (P 0x40, E 0x20, T 0x10, reserved 0x0f)
+	// CaseReg: a handler is also registered under the command's short name with the case of its
+	// letters swapped ("ceR" for "CER") - no command's name, so it never fires: 1 = registered
+	// before the others, 2 = after them
+	CaseReg int `json:",omitempty"`
+}
+
+func swapCase(s string) string {
+	b := []byte(s)
+	for i, c := range b {
+		switch {
+		case c >= 'a' && c <= 'z':
+			b[i] = c - 32
+		case c >= 'A' && c <= 'Z':
+			b[i] = c + 32
+		}
+	}
+	return string(b)
 }
 
 func (c C09Case) Desc() string {
@@ -97,6 +117,9 @@ func (c C09Case) Desc() string {
 	}
 	if c.Extra != 0 {
 		s += fmt.Sprintf(" further flag bits %#x", c.Extra)
+	}
+	if c.CaseReg != 0 {
+		s += fmt.Sprintf(" + a handler under the case-swapped name %q registered %s", swapCase(m.Short)+suffix(c.Req), map[int]string{1: "first", 2: "last"}[c.CaseReg])
 	}
 	return s
 }
@@ -136,6 +159,9 @@ func c09Eval(cs C09Case) string {
 				mux.HandleFunc("ALL", h(tag))
 			}
 		}
+		if cs.CaseReg == 1 {
+			mux.Handle(swapCase(m.Short)+suffix(cs.Req), h("case-swapped-name"))
+		}
 		for i := range c09Keys {
 			if cs.Subset&(1<<uint(i)) != 0 {
 				reg(i, c09Keys[i])
@@ -143,6 +169,9 @@ func c09Eval(cs C09Case) string {
 		}
 		if cs.Rereg >= 0 {
 			reg(cs.Rereg, c09Keys[cs.Rereg]+"#2")
+		}
+		if cs.CaseReg == 2 {
+			mux.Handle(swapCase(m.Short)+suffix(cs.Req), h("case-swapped-name"))
 		}
 		// reference decision table
 		want := ""
@@ -378,14 +407,16 @@ func runC09(ctx *ev.Ctx) {
 					}
 					// the other command flag bits rotate with the case: dispatch looks at R only
 					extras := []uint8{0, 0x40, 0x10, 0x20, 0x7f}
-					cs := C09Case{Msg: mi, Req: req, Subset: sub, Rereg: rr, Extra: extras[(sub+rr+1+mi)%len(extras)]}
-					ctx.Eval(ev.HS(cs.Desc()))
-					if n%4000 == 0 {
-						ctx.Sample(cs.Desc())
-					}
-					n++
-					if what := c09Eval(cs); what != "" {
-						ctx.Report("", generalise(what), what+" | case: "+cs.Desc(), cs)
+					for caseReg := 0; caseReg <= 2; caseReg++ {
+						cs := C09Case{Msg: mi, Req: req, Subset: sub, Rereg: rr, Extra: extras[(sub+rr+1+mi)%len(extras)], CaseReg: caseReg}
+						ctx.Eval(ev.HS(cs.Desc()))
+						if n%4000 == 0 {
+							ctx.Sample(cs.Desc())
+						}
+						n++
+						if what := c09Eval(cs); what != "" {
+							ctx.Report("", generalise(what), what+" | case: "+cs.Desc(), cs)
+						}
 					}
 					for _, k := range []string{"idxK", "nameK", "ALL"} {
 						if sub&(1<<uint(indexOf(c09Keys, k))) != 0 {
@@ -437,7 +468,7 @@ func runC09(ctx *ev.Ctx) {
 	}
 	ctx.Set("histories", hn)
 	ctx.Set("distinct_selected_handlers", len(outcomes)+1)
-	ctx.Rule = "histories: every sequence of <=5 (thorough 6) operations over {register one of the eight keys with a fresh handler, dispatch, dispatch during which the selected handler panics and the caller recovers as the serve loop does (at most once)} ending in a dispatch, replayed on one ServeMux with every dispatch compared with a reference model (map key -> latest handler; index, then name, then catch-all); AND the complete decision table: for 8 message keys (application 0xffffffff with command code 2^24-1, base CE, application CC, RA under Gx which redefines it, RA under S6a which resolves through the base dictionary, and three messages carrying a private dictionary whose base application defines a command the default dictionary lacks and names code 280 differently; plus three (application, code) pairs whose command exists only in an application that the AVP parent table - not command lookup - leads to: only the catch-all may see those) x request/answer (the other command flag bits P, E, T and the reserved bits rotate with the case: only R selects; every other message was read off a stream as a different command and had its header rewritten before dispatch): all 2^8 subsets of the registrations {index K, index with other application, other code, other R bit, name of K, name with the other suffix, name of another command, ALL}, and every single re-registration of a present key with a second handler; the handler that fires and the number of error reports are compared with the reference decision (index, then name, then catch-all, else exactly one report)."
+	ctx.Rule = "histories: every sequence of <=5 (thorough 6) operations over {register one of the eight keys with a fresh handler, dispatch, dispatch during which the selected handler panics and the caller recovers as the serve loop does (at most once)} ending in a dispatch, replayed on one ServeMux with every dispatch compared with a reference model (map key -> latest handler; index, then name, then catch-all); AND the complete decision table: for 9 message keys (a private command whose short name is mixed-case, application 0xffffffff with command code 2^24-1, base CE, application CC, RA under Gx which redefines it, RA under S6a which resolves through the base dictionary, and three messages carrying a private dictionary whose base application defines a command the default dictionary lacks and names code 280 differently; plus three (application, code) pairs whose command exists only in an application that the AVP parent table - not command lookup - leads to: only the catch-all may see those) x request/answer (the other command flag bits P, E, T and the reserved bits rotate with the case: only R selects; every other message was read off a stream as a different command and had its header rewritten before dispatch): all 2^8 subsets of the registrations {index K, index with other application, other code, other R bit, name of K, name with the other suffix, name of another command, ALL}, and every single re-registration of a present key with a second handler; each of these without, before and after a registration under the short name with the case of its letters swapped (no command's name: it must stay inert); the handler that fires and the number of error reports are compared with the reference decision (index, then name, then catch-all, else exactly one report)."
 	ctx.Assume = []string{"exact-index and name registrations are judged for commands the dictionary defines (incoming messages have passed ReadMessage); for undefined commands only the catch-all / error-report rows are judged"}
 }
 
